@@ -35,7 +35,7 @@ CLAIMS = {
              "Program.get_capacity/get_prop_covered, ProgramSet.get_alloc/get_capacities/get_prop_coverage and Result.get_coverage are compared with the model.",
         note="libm exp enters as an oracle value; float cancellation in 2s/(1+e)-s measured to 1e-11.",
         design="8.C11"),
-    "C01_pending": dict(
+    "C01": dict(
         technique="Lean 4 model of the integration step (Atomica.Engine) + step-level trace refinement against Model.process (mode B) + conservation oracles",
         text="Proof-family check: every step of generated models (all compartment kinds, junction chains, duration groups, transfers, extreme/boundary regimes) is replayed through one exact "
              "model step (rationals) and compared to 1e-11; balance / junction pass-through / population-total oracles run on the implementation arrays. Conservation theorems about the model "
